@@ -162,7 +162,7 @@ def _generate(ctx, rng):
                 hosts = [{"good": False, "klass": klass, "version": version, "copies": 1 + (n % 3)}] + \
                         [{"good": True, "version": rng.choice([2, 3]), "copies": rng.randint(1, 2)} for _ in range(ngood)]
                 counts = [h["copies"] for h in hosts]
-                for order in _orders(counts, 40 if quick else 120):
+                for order in _orders(counts, 40 if quick else 600):
                     n += 1
                     yield ("bad", n), {"hosts": hosts, "order": order, "salt": rng.randrange(1000)}
     # every subset of hosts bad
@@ -177,7 +177,7 @@ def _generate(ctx, rng):
                 yield ("subset", n), {"hosts": hosts, "order": seq, "salt": rng.randrange(1000)}
     # duplicates only: all interleavings for <= 6 datagrams
     for counts in ([1], [2], [3], [1, 1], [2, 1], [2, 2], [3, 2], [3, 3], [1, 1, 1], [2, 1, 1], [2, 2, 1], [2, 2, 2], [3, 2, 1], [1, 1, 1, 1], [2, 1, 1, 1]):
-        for order in _orders(counts, 200 if quick else 2000):
+        for order in _orders(counts, 200 if quick else 10000):
             n += 1
             yield ("dup", n), {"hosts": [{"good": True, "version": 2 + (i + n) % 2, "copies": c} for i, c in enumerate(counts)],
                                "order": order, "salt": rng.randrange(1000)}
@@ -185,12 +185,12 @@ def _generate(ctx, rng):
     for counts in ([2], [3], [2, 1], [2, 2], [3, 2], [2, 2, 1]):
         for first_version in (2, 3):
             for gap in (0.0, 0.01, 0.3):
-                for order in _orders(counts, 30 if quick else 300):
+                for order in _orders(counts, 30 if quick else 1500):
                     n += 1
                     yield ("dual", n), {"hosts": [{"good": True, "version": first_version if i == 0 else 2 + (i + n) % 2, "copies": c,
                                                    "dual": "always" if i == 0 else False} for i, c in enumerate(counts)],
                                         "order": order, "salt": rng.randrange(1000), "gap": gap}
-    for j in range(1500 if quick else 150000):
+    for j in range(1500 if quick else 750000):
         nh = rng.randint(1, 4)
         hosts = [({"good": False, "klass": rng.choice(BAD_CLASSES), "version": rng.choice([2, 3]), "copies": rng.randint(1, 3)}
                   if rng.random() < 0.4 else {"good": True, "version": rng.choice([2, 3]), "copies": rng.randint(1, 3)}) for _ in range(nh)]
